@@ -429,6 +429,10 @@ func init() {
 			}
 		}
 		for _, svc := range []int64{10, 12} {
+			for _, hw := range []int64{2, 3, 4} {
+				out = append(out, Inst{Pkg: "knxnet", Fn: "HarnessC15Pack", Args: []int64{svc, 0, 0, 0, 1, 3, hw}, Unwind: 2000, Note: "hardware address of 0 (zero value) / 8 / 5 bytes"},
+					Inst{Pkg: "knxnet", Fn: "HarnessC15Pack", Args: []int64{svc, 0, 0, 0, 0, 29, hw}, Unwind: 2000})
+			}
 			for _, nl := range names {
 				out = append(out, Inst{Pkg: "knxnet", Fn: "HarnessC15Pack", Args: []int64{svc, 0, 0, 0, 1, nl, 0}, Unwind: 2000, Note: "over-long friendly name"})
 			}
@@ -446,7 +450,7 @@ func init() {
 		Quick:    func(l *loaded) []Inst { return c15(false) },
 		Thorough: func(l *loaded) []Inst { return c15(true) },
 		Covers:   []string{"C15.end", "C15.send.end", "C15.sendrouter.end", "C15.packseq.end"},
-		Bounds:   "every value shape of C02 (quick bounds) plus oversize parts: additional info and application data of {256,300} (thorough 255..600) bytes, empty application data, friendly names of {30,31} (thorough 29..80) characters and names with a rune beyond Latin-1; buffer of exactly Size() bytes pre-filled with symbolic stale bytes, followed by 8 guard bytes; TunnelSocket.Send through a recording net.Conn and RouterSocket.Send through the WriteToUDP stub",
+		Bounds:   "every value shape of C02 (quick bounds) plus oversize parts: additional info and application data of {256,300} (thorough 255..600) bytes, empty application data, friendly names of {30,31} (thorough 29..80) characters and names with a rune beyond Latin-1, hardware addresses of 0 (the zero value), 5 and 8 bytes; buffer of exactly Size() bytes pre-filled with symbolic stale bytes, followed by 8 guard bytes; TunnelSocket.Send through a recording net.Conn and RouterSocket.Send through the WriteToUDP stub",
 		Outside:  "stale-independence is decided syntactically on the output terms (no output byte may mention a stale variable) and confirmed natively by re-running with different stale bytes",
 	})
 
@@ -790,6 +794,7 @@ func init() {
 		for prog := int64(0); prog <= 5; prog++ {
 			out = append(out, Inst{Pkg: "knx", Fn: "HarnessSelfTestConc", Args: []int64{prog}, Ctx: 2, ForceNative: true, Note: "validation of the engine's channel/select/mutex/once/recover model against the Go runtime"})
 		}
+		out = append(out, Inst{Pkg: "knx", Fn: "HarnessSelfTestClock", NoNative: true, Note: "engine model of time.Now/Since/Sub/Add on the virtual clock"})
 		for late := int64(0); late < 2; late++ {
 			for end := int64(0); end < 3; end++ {
 				out = append(out, Inst{Pkg: "knx", Fn: "HarnessC10Relay", Args: []int64{late, end}, Ctx: ctx + 1, Race: true, Note: "late response while the server goroutine ends"})
@@ -802,7 +807,7 @@ func init() {
 		NoNative: true,
 		Quick:    func(l *loaded) []Inst { return c10(false) },
 		Thorough: func(l *loaded) []Inst { return c10(true) },
-		Covers:   []string{"C10.end", "C10.relay.end", "self.end"},
+		Covers:   []string{"C10.end", "C10.relay.end", "self.end", "self.clock.end"},
 		Bounds:   "Close injected into an idle tunnel, a pending Send, a pending heartbeat exchange, a pending reconnect, parked inbound deliveries and a tunnel whose socket already died; 1 or 2 concurrent closers; with and without a reader; a late connection-state response / tunnelling acknowledgement followed by the end of the server goroutine (disconnect response, socket death, Close) inside the relay's offer window; real serve/process/heartbeat/relay goroutines (<= 9 threads), context bound 2 (thorough 3), scheduler step bound 30000; happens-before race check (vector clocks over go, channel, mutex, WaitGroup, Once and timer edges) on every field of the Tunnel object along all explored schedules",
 		Outside:  "3..4 concurrent closers; memory-model effects below happens-before; the receiver goroutine of the real TunnelSocket (C16)",
 		Assume:   []string{"in-memory socket whose Close is counted", "sync.Once/WaitGroup/Mutex are engine primitives"},
@@ -930,6 +935,8 @@ func init() {
 			}
 		}
 		out = append(out, Inst{Pkg: "knx", Fn: "HarnessC03Exchange", Args: []int64{2, 0, -1, 0}, Note: "inductive core: sender exchange from every counter value"})
+		out = append(out, Inst{Pkg: "knx", Fn: "HarnessC03TwoSenders", Args: []int64{2, 1, 0, 5}, Ctx: 3, Note: "two concurrent senders, fault-free gateway: every successful Send forwarded exactly once"},
+			Inst{Pkg: "knx", Fn: "HarnessC03TwoSenders", Args: []int64{2, 2, 0, 5}, Ctx: 2})
 		if thorough {
 			out = append(out,
 				Inst{Pkg: "knx", Fn: "HarnessC05Out", Args: []int64{3, 2}, Ctx: 2, MaxSched: 30000},
@@ -944,8 +951,8 @@ func init() {
 		NoNative: true,
 		Quick:    func(l *loaded) []Inst { return c05(false) },
 		Thorough: func(l *loaded) []Inst { return c05(true) },
-		Covers:   []string{"C05.out.end", "C05.in.end", "C05.out.after_timeout", "C04.delivered", "C03.matched"},
-		Bounds:   "composition of the real client with a rule-following gateway and a lossy/duplicating/delaying network (harness goroutines): outbound 2 (thorough 3) telegrams from a symbolic start number (wrap included) with up to 3 faults (request lost / duplicated with a delayed copy / overtaken, acknowledgement lost / duplicated), real Send, real handleTunnelRes relay goroutines, virtual-time resend and timeout; inbound 2 (3) telegrams with up to 2 (3) faults through the real process() goroutine; context bound 2",
+		Covers:   []string{"C05.out.end", "C05.in.end", "C05.out.after_timeout", "C04.delivered", "C03.matched", "C05.two.end"},
+		Bounds:   "composition of the real client with a rule-following gateway and a lossy/duplicating/delaying network (harness goroutines): outbound 2 (thorough 3) telegrams from a symbolic start number (wrap included) with up to 3 faults (request lost / duplicated with a delayed copy / overtaken, acknowledgement lost / duplicated), real Send, real handleTunnelRes relay goroutines, virtual-time resend and timeout; inbound 2 (3) telegrams (of different cEMI kinds) with up to 2 (3) faults through the real process() goroutine; two concurrent senders (1..2 telegrams each) against a fault-free gateway; context bound 2..3",
 		Outside:  "6 telegrams per direction, more than 3 faults, more than one delayed copy in flight; the one-step harnesses of C03/C04 (included here as the inductive core, from every counter value) carry the induction over long histories and the 255->0 wrap of the receive counter",
 		Assume:   []string{"gateway and network are harness code written from the tunnelling rules in the property"},
 	})
